@@ -51,7 +51,15 @@ oracles (clause of the statement -> oracle)
 ties: for rho-a the best-fitting RDM of a training set is not unique when its mean ranks tie (every ordering inside a tie
 block fits the training RDMs equally well).  The statement fixes the lower bound then only up to the range spanned by these
 orderings; the range [lo, hi] is computed exactly (rearrangement inside each tie block) and the observed bound must lie in
-it; without such ties lo == hi and the check is an equality.
+it; without such ties lo == hi and the check is an equality.  Likewise for cosine / corr when the (normalised) training RDMs
+cancel exactly (pooled RDM = 0, e.g. two exactly anti-correlated integer RDMs on 3 entries): every RDM fits them equally
+well, the term is undetermined in [-1, 1]; the invariance oracle skips such stacks (`_undetermined`), the generators avoid
+RDMs that are constant on a set of entries on which a similarity is taken (no direction: outside the property).
+
+why no counterexample to lower <= upper is expected for the whitened variants either: with singleton groups the pooled RDM of
+all data is (n-1)/n * (pooled RDM without i) + a_i * x_i with a_i > 0 (any positive normalisation), and cos_W(x_i, q + a x_i)
+is non-decreasing in a >= 0 for every inner product W, so the inequality holds term by term; the check is kept as a guard
+(it catches sign errors / swapped bounds / non-positive weights in the pooling of the whitened methods).
 
 input_class = '<method>,<kind of data>[,nan][,<grouping kind>]' (see `_ic`).
 
@@ -519,7 +527,8 @@ def _cv_sets(vecs, case):
         if not case.get('ceil_full'):
             tr = tr.subset_pattern(desc, vals)
         arr = vals if plab is not None else np.array(vals)
-        ceil_set.append((tr, arr))
+        allv = list(dict.fromkeys(plab_eff))
+        ceil_set.append((tr, (allv if plab is not None else np.array(allv)) if case.get('ceil_full') else arr))
         test_set.append((te, arr))
     return rd, ceil_set, test_set, desc, plab_eff
 
